@@ -267,12 +267,72 @@ def wstr(s):
     return [str(f.numerator), str(f.denominator)]
 
 
-def gen_lnk(rng, odd=0.08):
+def collision_families():
+    """groups of DISTINCT character spans that typical packings / hashes of a (cfrom, cto) pair would
+    identify: bit-packing `cfrom << k | cto` (k = 8, 15, 16, 31, 32, 63, 64), truncation to k bits,
+    decimal packing `cfrom * 10**k + cto`, conversion to float32/float64,
+    CPython's int hash modulus 2**61-1, decimal concatenation, sum / xor / order-insensitive keys.
+    Offsets around 2**8, 2**15, 2**16 (65530-65545), 2**31, 2**32, 2**63, 2**64 all occur."""
+    fams = []
+    for k in (8, 15, 16, 31, 32, 63, 64):
+        K = 1 << k
+        fams.append([[K - 6, K + 5], [K - 5, K + 5], [K - 6, K + 6]])      # same cto, cfrom differs by 1 near 2**k
+        fams.append([[0, K + 5], [1, 5]])                                   # (a << k | b) == (c << k | d)
+        fams.append([[3, K + 7], [4, 7], [3, 7]])
+        fams.append([[K - 1, K], [K, K + 1], [K - 1, K + 1]])
+        fams.append([[5, 9], [5 + K, 9], [5, 9 + K], [5 + K, 9 + K]])       # differ only in the high bits
+    for B in (1000, 10 ** 4, 10 ** 5, 10 ** 6, 10 ** 9, 10 ** 10):          # cfrom * 10**k + cto
+        fams.append([[0, B + 5], [1, 5]])
+        fams.append([[3, B + 7], [4, 7], [B - 1, B], [B, B + 1]])
+    for K in (1 << 24, 1 << 53):                                            # float32 / float64 mantissa
+        fams.append([[K, 2 * K], [K + 1, 2 * K], [K, 2 * K + 1]])
+    M = (1 << 61) - 1
+    fams.append([[2, 6], [2 + M, 6], [2, 6 + M], [2 + M, 6 + M]])           # hash(int) modulus
+    fams.append([[1, 23], [12, 3]])                                         # str(cfrom) + str(cto)
+    fams.append([[1, 4], [2, 3], [4, 1], [0, 5]])                           # cfrom + cto, cfrom ^ cto, unordered
+    fams.append([[0, 65541], [1, 5], [65530, 65541], [65531, 65541]])
+    fams.append([[-1, -1], [-1, 65535], [0, -1], [-1, 0]])                  # the "no span" default vs packings of -1
+    return fams
+
+
+FAMILIES = collision_families()
+
+
+def partner_span(rng, lnk):
+    """a different span that a lossy key would confuse with `lnk` (same family), or None"""
+    if lnk is None or lnk[0] != "c":
+        return None
+    cur = [lnk[1], lnk[2]]
+    fams = [f for f in FAMILIES if cur in f]
+    if not fams:
+        return None
+    other = [x for x in rng.choice(fams) if x != cur]
+    return ["c"] + list(rng.choice(other))
+
+
+def big_span(rng):
+    r = rng.random()
+    if r < 0.6:
+        return ["c"] + list(rng.choice(rng.choice(FAMILIES)))
+    if r < 0.8:
+        b = rng.choice([1 << 8, 1 << 15, 1 << 16, 1 << 31, 1 << 32, 1 << 63, 1 << 64]) + rng.randrange(-10, 10)
+        return ["c", b, b + rng.choice([0, 1, 11, 1 << 16, 1 << 32])]
+    a = rng.getrandbits(rng.choice([40, 70, 130, 200]))
+    return ["c", a, a + rng.getrandbits(rng.choice([3, 20, 70]))]
+
+
+def is_big(lnk):
+    return lnk is not None and lnk[0] == "c" and (abs(lnk[1]) >= 256 or abs(lnk[2]) >= 256)
+
+
+def gen_lnk(rng, odd=0.08, big=0.12):
     r = rng.random()
     if r < odd / 2:
         return None
     if r < odd:
         return ["o", rng.randrange(0, 9), rng.randrange(0, 9)]
+    if r < odd + big:
+        return big_span(rng)
     return list(rng.choice(SPANS))
 
 
@@ -364,8 +424,14 @@ def mutate_graph(rng, G):
     H = copy.deepcopy(G)
     for _ in range(rng.choice([0, 1, 1, 2, 3])):
         nodes = H["nodes"]
-        op = rng.randrange(12)
-        if op == 0 and nodes:
+        op = rng.randrange(14)
+        if op >= 12 and nodes:
+            n = rng.choice(nodes)
+            if n["lnk"] is None or n["lnk"][0] != "c" or partner_span(rng, n["lnk"]) is None:
+                n["lnk"] = ["c"] + list(rng.choice(rng.choice(FAMILIES)))
+                # the gold side gets the same span, so that only the partner below differs
+            n["lnk"] = partner_span(rng, n["lnk"]) or n["lnk"]
+        elif op == 0 and nodes:
             rng.choice(nodes)["pred"] = cps(rng.choice(PREDS))
         elif op == 1 and nodes:
             rng.choice(nodes)["lnk"] = gen_lnk(rng)
@@ -444,6 +510,47 @@ def mk_case(kind, golds, tests, w, ig, it, rng):
             "alt": rng.randrange(1 << 30)}
 
 
+def family_cases(rng):
+    """deterministic block: for every pair of distinct spans of a collision family, a gold and a test
+    structure (EDS and DMRS alternating) that differ ONLY in that span — on a node that is top, has a
+    property and a constant, and is source and target of an argument — next to an ordinary small-span
+    node.  Correct scores: the name/property/constant/top triples of that node and both argument triples
+    do not match.  A second shape puts both spans into ONE structure with the same predicate against a
+    structure that has one of them twice (multiset counts would merge)."""
+    k = 0
+    one = [wstr("1")] * 5
+    for fam in FAMILIES:
+        for i in range(len(fam)):
+            for j in range(len(fam)):
+                if i == j:
+                    continue
+                s1, s2 = ["c"] + list(fam[i]), ["c"] + list(fam[j])
+                t = ("eds", "dmrs")[k % 2]
+                t2 = ("eds", "dmrs")[(k // 2) % 2]
+                k += 1
+
+                def mk(t, sp, sp_b=None):
+                    a = {"id": 1, "pred": cps("_a_n_1"), "lnk": list(sp), "props": [[cps("NUM"), cps("sg")]],
+                         "carg": cps("Kim"), "edges": []}
+                    b = {"id": 2, "pred": cps("_b_v_1"), "lnk": ["c", 0, 3], "props": [], "carg": None, "edges": []}
+                    nodes = [a, b]
+                    if sp_b is not None:
+                        nodes.append({"id": 3, "pred": cps("_a_n_1"), "lnk": list(sp_b),
+                                      "props": [[cps("NUM"), cps("sg")]], "carg": cps("Kim"), "edges": []})
+                    g = {"t": t, "top": 1, "nodes": nodes, "links": []}
+                    if t == "eds":
+                        a["edges"] = [[cps("ARG1"), 2]]
+                        b["edges"] = [[cps("ARG2"), 1]]
+                    else:
+                        g["links"] = [[1, 2, cps("ARG1"), cps("NEQ")], [2, 1, cps("ARG2"), cps("NEQ")]]
+                    return g
+                yield mk_case("family", [mk(t, s1)], [mk(t2, s2)], one, False, False, rng)
+                if i < j:
+                    yield mk_case("family", [mk(t, s1, s2)], [mk(t2, s1, s1)], one, False, False, rng)
+                    yield mk_case("family", [mk(t, s1), mk(t2, s2)], [mk(t2, s2), mk(t, s1)],
+                                  [wstr("1"), wstr("0"), wstr("0"), wstr("0"), wstr("1/2")], False, False, rng)
+
+
 def tiny_graphs():
     """all structures with at most 2 nodes over 2 spans × 2 predicates, optional ARG1 edge 1→2, top ∈ {None,1}"""
     sp = [["c", 0, 3], ["c", 4, 7]]
@@ -517,6 +624,7 @@ class C18(Check):
                              ([g, None], [None, g]), ([g, g], [g]), ([g], [g, g]), ([None, g], [g])]:
             for ig, it in flags:
                 yield mk_case("shape", copy.deepcopy(golds), copy.deepcopy(tests), one, ig, it, rng)
+        yield from family_cases(rng)
         yield from self.random_cases(rng, n)
 
     def random_cases(self, rng, n, kinds=None):
@@ -615,11 +723,23 @@ class C18(Check):
 
         def fail(clause, detail):
             fails.append({"clause": clause, "detail": detail})
-        if not self.in_space(case):
-            return fails
         golds, tests, ig, it = case["golds"], case["tests"], case["ig"], case["it"]
         w = weights_of(case)
         score = res["score"]
+        # (0) purity: the same call twice, with calls on other arguments in between, gives the same answer
+        first = run_compute(golds, tests, w, ig, it)
+        run_compute(golds, golds, [Fraction(1)] * 5, False, False)       # gold-only material on both sides
+        run_compute(tests, golds, [Fraction(2), Fraction(0), Fraction(1), Fraction(1), Fraction(3)], not ig, not it)
+        tot_between = run_totals(tests, tests, False, False)
+        second = run_compute(golds, tests, w, ig, it)
+        if not (first == second == score):
+            fail("repeating the call (with other calls in between) changes the result",
+                 {"observed": score, "first": first, "second": second})
+        if res.get("totals") is not None and run_totals(golds, tests, ig, it) != res["totals"]:
+            fail("repeating the call (with other calls in between) changes the accumulated counts",
+                 {"observed": res["totals"], "between": tot_between})
+        if not self.in_space(case):
+            return fails
         # (1) the defining equation
         tot = o_totals(golds, tests, ig, it)
         G, T, B, want = o_score(tot, w)
@@ -719,6 +839,21 @@ class C18(Check):
                         inc("dmrs_top_link")
                     if any(n["lnk"] is None or n["lnk"][0] != "c" for n in x["nodes"]):
                         inc("node_without_charspan")
+                    if any(is_big(n["lnk"]) for n in x["nodes"]):
+                        inc("structure_with_offset>=256")
+                        if any(not is_big(n["lnk"]) for n in x["nodes"]):
+                            inc("structure_mixing_small_and_large_offsets")
+                    if any(n["lnk"] is not None and n["lnk"][0] == "c" and max(abs(n["lnk"][1]), abs(n["lnk"][2])) >= 65536
+                           for n in x["nodes"]):
+                        inc("structure_with_offset>=2^16")
+                    if any(n["lnk"] is not None and n["lnk"][0] == "c" and max(abs(n["lnk"][1]), abs(n["lnk"][2])) >= 2 ** 63
+                           for n in x["nodes"]):
+                        inc("structure_with_offset>=2^63")
+            if g is not None and t is not None:
+                sg = [n["lnk"][1:] for n in g["nodes"] if n["lnk"] is not None and n["lnk"][0] == "c"]
+                st = [n["lnk"][1:] for n in t["nodes"] if n["lnk"] is not None and n["lnk"][0] == "c"]
+                if any(a != b and any(a in f and b in f for f in FAMILIES) for a in sg for b in st):
+                    inc("pair_with_collision_prone_spans")
         ws = weights_of(case)
         inc("weights:" + ("all_one" if all(x == 1 for x in ws) else "all_zero" if all(x == 0 for x in ws)
                           else "negative" if any(x < 0 for x in ws) else "some_zero" if any(x == 0 for x in ws)
